@@ -33,6 +33,8 @@ struct Outcome {
     cuts: Vec<usize>,
     /// node ids were not 0, 1, 2, ... in order
     disorder: bool,
+    /// first k for which `iter_from(k)` is not the suffix of `iter()` starting at node k
+    from_bad: Option<usize>,
 }
 
 /// reads a sequential graph through `iter()`
@@ -43,6 +45,21 @@ macro_rules! read_seq {
         while let Some((x, succ)) = Lender::next(&mut it) {
             if x != lists.len() { $o.disorder = true; }
             lists.push(succ.into_iter().collect());
+        }
+        // sequential iteration started at an intermediate node: every k on small results,
+        // a sample (incl. both ends) on larger ones
+        let n = lists.len();
+        let ks: Vec<usize> = if n <= 48 { (0..=n).collect() } else { vec![0, 1, 2, n / 3, n / 2, n / 2 + 1, n - 2, n - 1, n] };
+        for k in ks {
+            let mut it = $g.iter_from(k);
+            let mut x0 = k;
+            let mut good = true;
+            while let Some((x, succ)) = Lender::next(&mut it) {
+                let l: Vec<usize> = succ.into_iter().collect();
+                if x != x0 || x >= n || l != lists[x] { good = false; break; }
+                x0 += 1;
+            }
+            if !good || x0 != n { if $o.from_bad.is_none() { $o.from_bad = Some(k); } break; }
         }
         $o.seq = Some(lists);
     }};
@@ -88,6 +105,21 @@ macro_rules! read_both_labeled {
             while let Some((x, succ)) = Lender::next(&mut it) {
                 if x != lists.len() { $o.disorder = true; }
                 lists.push(succ.into_iter().collect());
+            }
+        }
+        {
+            let n = lists.len();
+            let ks: Vec<usize> = if n <= 48 { (0..=n).collect() } else { vec![0, 1, 2, n / 3, n / 2, n / 2 + 1, n - 2, n - 1, n] };
+            for k in ks {
+                let mut it = sorted.iter_from(k);
+                let mut x0 = k;
+                let mut good = true;
+                while let Some((x, succ)) = Lender::next(&mut it) {
+                    let l: Vec<(usize, u32)> = succ.into_iter().collect();
+                    if x != x0 || x >= n || l != lists[x] { good = false; break; }
+                    x0 += 1;
+                }
+                if !good || x0 != n { if $o.from_bad.is_none() { $o.from_bad = Some(k); } break; }
             }
         }
         let (a, b) = split_labels(lists);
@@ -365,7 +397,7 @@ fn opt_lists(l: &Option<Vec<Vec<usize>>>) -> String {
 
 fn emit(out: &mut impl Write, id: &str, c: &Case, malformed: bool, r: std::result::Result<Result<Outcome>, String>) {
     let (status, o) = match r {
-        Ok(Ok(o)) => (if o.disorder { "disorder".to_string() } else { "ok".to_string() }, o),
+        Ok(Ok(o)) => (if o.disorder { "disorder".to_string() } else if let Some(k) = o.from_bad { format!("iter_from-{k}-differs") } else { "ok".to_string() }, o),
         Ok(Err(e)) => (format!("err:{}", sanitize(&format!("{e:#}"))), Outcome::default()),
         Err(p) => (format!("panic:{}", sanitize(&p)), Outcome::default()),
     };
